@@ -368,6 +368,56 @@ fn search(oracle: &str, seed: u64) -> Outcome {
                 }
                 None
             }
+            "od_add_days" => {
+                domain = "Oracle dates at the range ends, around 1970 and at sampled days x fractional-day offsets";
+                exhaustive = false;
+                let mut bases: Vec<i64> = vec![TSMIN, TSMIN + 1_000_000, -1_000_000, 0, 1_000_000, TSMAX - 999_999, TSMAX - 999_999 - 1_000_000];
+                for k in 0..2000i64 { bases.push((DMIN + k * 1826) * DAY + (k * 7919 % 86400) * 1_000_000); }
+                let offs: Vec<f64> = vec![0.0, 0.5, -0.5, 1.0, -1.0, 0.00001, -0.00001, 0.000007, -0.000007, 0.000005787037037037037, 0.0000115, 1.0 / 86400.0, 1.5 / 86400.0,
+                    -1.5 / 86400.0, 0.25, 365.25, -365.25, 0.00000095367431640625];
+                for &b in &bases { if b < TSMIN || b > TSMAX { continue; } for &d in &offs {
+                    n_eval += 1;
+                    let od = OracleDate::try_from_usecs(b).unwrap();
+                    let ts = Timestamp::try_from_usecs(b).unwrap().add_days(d);
+                    let r = od.add_days(d);
+                    let exp = match ts { Err(_) => "Err".to_string(), Ok(t) => {
+                        let u = t.usecs() as i128; let sec = u.div_euclid(1_000_000) * 1_000_000; let f = u - sec;
+                        let rr = if f > 500_000 || (f == 500_000 && u >= 0) { sec + 1_000_000 } else { sec };
+                        if rr >= TSMIN as i128 && rr <= TSMAX as i128 - 999_999 { format!("Ok(usecs={})", rr) } else { "Err".to_string() } } };
+                    let act = match &r { Ok(v) => format!("Ok(usecs={})", v.usecs()), Err(_) => "Err".to_string() };
+                    if act != exp { fail!(format!("OracleDate(usecs={}).add_days({:e})", b, d), exp, act); }
+                    if let Ok(v) = &r { if v.usecs() % 1_000_000 != 0 || v.usecs() < TSMIN || v.usecs() > TSMAX { fail!(format!("OracleDate(usecs={}).add_days({:e})", b, d), "a whole second inside the range".into(), format!("usecs={}", v.usecs())); } }
+                }}
+                None
+            }
+            "ts_add_days" => {
+                domain = "timestamps at the range ends / epoch / sampled x offsets with an exact product, NaN, infinities, huge";
+                exhaustive = false;
+                let mut bases: Vec<i64> = vec![TSMIN, TSMIN + 1, -1, 0, 1, TSMAX - 1, TSMAX];
+                for k in 0..2000i64 { bases.push((DMIN + k * 1826) * DAY + (k * 7919 % 86400) * 1_000_000 + k * 499 % 1_000_000); }
+                let offs: Vec<(f64, i128)> = vec![(0.0, 0), (1.0, DAY as i128), (-1.0, -(DAY as i128)), (0.5, DAY as i128 / 2), (-0.25, -(DAY as i128) / 4), (3652059.0, 3652059 * DAY as i128),
+                    (-3652059.0, -3652059 * DAY as i128), (0.00000095367431640625, 82_397), (-0.00000095367431640625, -82_397), (0.0000152587890625, 1_318_359), (-0.0000152587890625, -1_318_359),
+                    (61035.1563720703125, 5_273_437_510_546_875), (-61035.1563720703125, -5_273_437_510_546_875)];
+                for &b in &bases { if b < TSMIN || b > TSMAX { continue; }
+                    let t = Timestamp::try_from_usecs(b).unwrap();
+                    for &(d, us) in &offs {
+                        n_eval += 2;
+                        let e = b as i128 + us;
+                        let exp = if e >= TSMIN as i128 && e <= TSMAX as i128 { format!("Ok(usecs={})", e) } else { "Err(DateOutOfRange)".to_string() };
+                        let act = fmt_ts_res(&t.add_days(d));
+                        if act != exp { fail!(format!("Timestamp(usecs={}).add_days({:e})", b, d), exp, act); }
+                        let e2 = b as i128 - us;
+                        let exp2 = if e2 >= TSMIN as i128 && e2 <= TSMAX as i128 { format!("Ok(usecs={})", e2) } else { "Err(DateOutOfRange)".to_string() };
+                        let act2 = fmt_ts_res(&t.sub_days(d));
+                        if act2 != exp2 { fail!(format!("Timestamp(usecs={}).sub_days({:e})", b, d), exp2, act2); }
+                    }
+                    n_eval += 3;
+                    if fmt_ts_res(&t.add_days(f64::NAN)) != "Err(InvalidNumber)" { fail!(format!("Timestamp(usecs={}).add_days(NaN)", b), "Err(InvalidNumber)".into(), fmt_ts_res(&t.add_days(f64::NAN))); }
+                    if fmt_ts_res(&t.add_days(f64::INFINITY)) != "Err(NumericOverflow)" { fail!(format!("Timestamp(usecs={}).add_days(inf)", b), "Err(NumericOverflow)".into(), fmt_ts_res(&t.add_days(f64::INFINITY))); }
+                    if fmt_ts_res(&t.add_days(1e200)) != "Err(DateOutOfRange)" { fail!(format!("Timestamp(usecs={}).add_days(1e200)", b), "Err(DateOutOfRange)".into(), fmt_ts_res(&t.add_days(1e200))); }
+                }
+                None
+            }
             _ => { domain = "unknown oracle"; exhaustive = false; None }
         }
     })();
@@ -380,7 +430,7 @@ fn esc(s: &str) -> String { s.replace('\\', "\\\\").replace('"', "\\\"") }
 fn main() {
     let args: Vec<String> = std::env::args().collect();
     if args.len() >= 2 && args[1] == "list" {
-        println!("date_extract date_from_ymd date_from_days date_add_sub_days date_day_of_week date_add_months ts_add_months last_day_of_month date_trunc date_round ts_trunc ts_round od_trunc od_round ts_split time_tuple time_add_interval interval_ctor od_from_timestamp");
+        println!("date_extract date_from_ymd date_from_days date_add_sub_days date_day_of_week date_add_months ts_add_months last_day_of_month date_trunc date_round ts_trunc ts_round od_trunc od_round ts_split time_tuple time_add_interval interval_ctor od_from_timestamp od_add_days ts_add_days");
         return;
     }
     if args.len() >= 3 && args[1] == "search" {
